@@ -59,8 +59,8 @@ let () =
         with Miss -> "MISS" in
       Printf.printf "F %s %s\n" id r
     | ["U"; id; p; count; m; l; u] ->
-      let r = hash_to_field_from_uniform (z_of_hex p) (nat_of_int (int_of_string count))
-          (nat_of_int (int_of_string m)) (nat_of_int (int_of_string l)) (bytes_of_hex u) in
+      let r = hash_to_field_from_uniform (z_of_hex p) (z_of_string l) (z_of_string m)
+          (z_of_string count) (bytes_of_hex u) in
       Printf.printf "U %s %s\n" id
         (String.concat ";" (List.map (fun e -> String.concat "," (List.map hex_of_z e)) r))
     | _ -> failwith ("bad line " ^ line))
